@@ -45,7 +45,9 @@ REQUIRED_CLASSES = ['delimiter=,', 'delimiter=|', 'delimiter=tab', 'delimiter=;'
 _counter = collections.Counter()
 _installed = False
 STRINGS = ['alpha', 'Ünï', 'x y', 'a,b', 'q"uote', 'semi;colon', 'pi|pe', 'tab\there', 'NA', 'null', 'None', 'n/a', 'NaN', '0',
-           'true', ' lead', 'é', '-', '#hash', '1e5', "it's"]
+           'true', ' lead', 'é', '-', '#hash', '1e5', "it's",
+           # Latin-1 is not Windows-1252: the C1 control range and the 0xA0-0xFF letters that a "helpful" re-labelling changes
+           'c1\x9bcsi', '\x93quoted\x94', 'euro\x80', 'nbsp\xa0here', '\xff\xfe', 'ÿþ', '¤ ¦ ¨ ´ ¸ ¼ ½ ¾']
 
 
 def install():
@@ -188,6 +190,7 @@ def gen_table(rng, i):
         if t == 'datetime' and rng.random() < 0.6:
             fmt = rng.choice(['dd/MM/yyyy HH:mm:ss', 'yyyy-MM-ddTHH:mm:ss', 'yyyy-MM-dd HH:mm', 'd.M.yy HH.mm.ss'])
         cols.append({'name': rng.choice(['a', 'b', 'naïve', 'x y', 'Col', 'id', 'when', 'ß']) + str(j), 'type': t, 'values': vals,
+                     'format_spelling': rng.choice(['inner', 'inner', 'column+string', 'column+object']),
                      'format': fmt, 'bool': rng.choice([spell, spell, 'true|false', 'Y|N', '1|0', 'yes|no', 'T|F']) if t == 'boolean' else None})
     if rng.random() < 0.3:
         # CSVW "titles": what the file's header line calls a column, while the frame is to use "name"
@@ -243,6 +246,12 @@ def run_table_case(ctx, case):
         elif c['format']:
             dt = {'base': c['type'], 'format': c['format']}
         col = {'name': c['name'], 'datatype': dt}
+        sp = c.get('format_spelling', 'inner')
+        if isinstance(dt, dict) and sp != 'inner':
+            # the same format given at column level (the spelling tdda's own metadata files use), beside a plain-string
+            # datatype or beside an object-form datatype that has no format of its own
+            col['format'] = dt['format']
+            col['datatype'] = dt['base'] if sp == 'column+string' else {'base': dt['base']}
         if c.get('title'):
             col['titles'] = {'str': c['title'], 'list': [c['title'], 'another title'], 'dict': {'en': [c['title']]}}[c['titles_as']]
         columns.append(col)
@@ -257,6 +266,7 @@ def run_table_case(ctx, case):
     nonnull = any(v is not None for c in t['cols'] for v in c['values'])
     cls = [('part=table',), ('delimiter=' + ('tab' if t['delimiter'] == '\t' else t['delimiter']),), ('encoding=' + enc,),
            ('header=%d' % t['header'],), ('bool=' + t['bool'],), ('titles=%d' % any(c.get('title') for c in t['cols']),),
+           ('format_spellings=' + '+'.join(sorted(set(c.get('format_spelling', 'inner') for c in t['cols'] if c['type'] in ('date', 'datetime', 'boolean')))),),
            ('n_bool_spellings=%d' % len(set(c.get('bool') for c in t['cols'] if c['type'] == 'boolean')),)] + [('type=' + c['type'],) for c in t['cols']]
     rec.case(case, nontrivial=nonnull, cls=cls)
     mech0 = {'header': t['header'], 'header_decl': None if t['header'] else t.get('header_decl', 'both')}
